@@ -1,0 +1,28 @@
+//go:build verif
+
+package mint
+
+import (
+	"context"
+	"net/http"
+
+	"github.com/elnosh/gonuts/mint/storage"
+)
+
+// VerifWrapDB replaces the mint's storage with wrap(current storage).
+// Only compiled with the `verif` build tag; used by the external
+// verification harness to observe and interrupt storage calls.
+func (m *Mint) VerifWrapDB(wrap func(storage.MintDB) storage.MintDB) {
+	m.db = wrap(m.db)
+}
+
+// VerifHandler exposes the HTTP handler of the mint server so that
+// requests can be served in-process.
+func (ms *MintServer) VerifHandler() http.Handler {
+	return ms.httpServer.Handler
+}
+
+// VerifCheckInvoicePaid runs the invoice watcher for quoteId synchronously.
+func (m *Mint) VerifCheckInvoicePaid(ctx context.Context, quoteId string) {
+	m.checkInvoicePaid(ctx, quoteId)
+}
